@@ -99,6 +99,8 @@ def r1_dryrun(chk):
             or False
         # simpler: putData statement lies in the body of the `if writeMibs` statement
         ok = bool(sw) and any(in_subtree(cr.stmt_of(c, r.fn), s) for s in sw[0].ast.body)
+        reads = cr.option_reads(sw[0].expr, opt, 'writeMibs') if sw else []
+        ok = ok and len(reads) == 1 and reads[0][0] is True
         chk.ob('C13.R1', 'compile/putData-under-writeMibs', ok, where(r.mod, c),
                'putData must be control-dependent on the writeMibs option')
     # buildIndex passes dryRun too
@@ -497,5 +499,69 @@ def r9_failure_after_rename_leaves_no_file(chk, rule='C13.R9'):
     chk.floor(rule, 2, 'file writers')
 
 
+def r10_wellformedness(chk):
+    rels = sorted(r for r in chk.model.modules if r.startswith(('pysmi/writer/',)))
+    common.wellformedness(chk, 'C13.R10', rels, floor=8)
+
+
+
+def r11_guard_polarity_and_name(chk):
+    """directory creation, temp-file cleanup and byte-compilation run exactly under their conditions; the stored file
+    carries the writer's suffix; the text written is the text given (comments only prepended)"""
+    model = chk.model
+    chk.doc('C13.R11', 'file writers, by reachability under a valuation of the predicates: os.makedirs only when the '
+                       'directory does not exist; unlink of the temp file only when one was created (and, where '
+                       'tested, still exists); py_compile only when self.pyCompile; the rename target is '
+                       'os.path.join(self._path, decode(<name>)) plus the writer suffix (self.suffix / '
+                       'SOURCE_SUFFIXES[0]); the buffer written is encode(<data>), where data is the parameter, '
+                       'optionally with the comment header prepended when comments are given')
+    for rel, cname in WRITERS:
+        owner, fn, mod, cfg, by = analyse_writer(chk, rel, cname)
+        tag = '%s.putData' % cname
+        p = [a.arg for a in fn.args.args]
+        for c in by.get('os.makedirs', []):
+            d = norm(c.args[0]) if c.args else '?'
+            common.requires(chk, 'C13.R11', tag + '/makedirs', cfg, mod, [cfg.node_of(common.stmt_of(c))],
+                            {'os.path.exists(%s)' % d: False, p[4]: False})
+        rn = by.get('os.rename', []) + by.get('os.replace', [])
+        if len(rn) == 1 and len(rn[0].args) == 2:
+            tf, dest = norm(rn[0].args[0]), norm(rn[0].args[1])
+            for c in by.get('os.unlink', []) + by.get('os.remove', []):
+                if c.args and norm(c.args[0]) == tf:
+                    need = {tf: True}
+                    if any(isinstance(x, ast.Call) and dotted_name(x.func) == 'os.access' and x.args and
+                           norm(x.args[0]) == tf for x in walk_no_nested(fn)):
+                        need['os.access(%s, os.F_OK)' % tf] = True
+                    common.requires(chk, 'C13.R11', tag + '/unlink-temp', cfg, mod, [cfg.node_of(common.stmt_of(c))], need)
+            # destination name
+            defs_ = [st for st in fn.body if isinstance(st, (ast.Assign, ast.AugAssign)) and
+                     norm(st.targets[0] if isinstance(st, ast.Assign) else st.target) == dest]
+            txt = ' ; '.join(norm(st) for st in defs_)
+            b = common.pmatch(txt, '%s = os.path.join(self._path, decode(%s))' % (dest, p[1]), full=False)
+            suffix_ok = ('+ self.suffix' in txt) if cname == 'FileWriter' else ('%s += SOURCE_SUFFIXES[0]' % dest in txt or
+                                                                                  '+ SOURCE_SUFFIXES[0]' in txt)
+            chk.ob('C13.R11', tag + '/destination-name', b is not None and suffix_ok and len(defs_) <= 2,
+                   where(mod, rn[0]), 'destination is built by: %s' % txt[:120])
+        for c in by.get('py_compile.compile', []):
+            common.requires(chk, 'C13.R11', tag + '/byte-compile', cfg, mod, [cfg.node_of(common.stmt_of(c))],
+                            {'self.pyCompile': True, p[4]: False})
+        # the text: buf = encode(data); data only re-bound as header + data under `if comments`
+        enc = [st for st in walk_no_nested(fn) if isinstance(st, ast.Assign) and isinstance(st.value, ast.Call) and
+               dotted_name(st.value.func) == 'encode']
+        chk.ob('C13.R11', tag + '/writes-the-given-text', len(enc) == 1 and [norm(a) for a in enc[0].value.args] == [p[2]],
+               where(mod, fn), 'the buffer must be encode(%s)' % p[2])
+        rebinds = [st for st in walk_no_nested(fn) if isinstance(st, (ast.Assign, ast.AugAssign)) and
+                   norm(st.targets[0] if isinstance(st, ast.Assign) else st.target) == p[2]]
+        for st in rebinds:
+            ok = isinstance(st, ast.Assign) and isinstance(st.value, ast.BinOp) and isinstance(st.value.op, ast.Add) and \
+                norm(st.value.right) == p[2] and p[2] not in [n.id for n in ast.walk(st.value.left)
+                                                              if isinstance(n, ast.Name)]
+            chk.ob('C13.R11', tag + '/text-only-prefixed', ok, where(mod, st), 'the module text is changed: %s' % norm(st)[:80])
+            if ok:
+                common.requires(chk, 'C13.R11', tag + '/comment-header', cfg, mod, [cfg.node_of(st)], {p[3]: True})
+    chk.floor('C13.R11', 20, 'two writers')
+
+
 RULES = [r1_dryrun, r2_typestate, r3_complete_write, r4_cleanup, r5_compile_stage, r6_siblings, r7_callback_writer, r8_argument_agreement,
-         r9_failure_after_rename_leaves_no_file]
+         r9_failure_after_rename_leaves_no_file, r10_wellformedness,
+         r11_guard_polarity_and_name]
